@@ -652,6 +652,17 @@ pub fn probe(name: &str) -> Result<()> {
                 println!("   compute_ff_bytes -> {:?}; is_error={}", m.compute_ff_bytes(), m.is_error());
             }
         }
+        "max_items_huge" => {
+            let v = byte_vocab();
+            let env = make_tok_env(&v, false);
+            let fac = make_factory(&env, &Some(vec![]), &LimitsSpec::default(), false)?;
+            for n in [1000u64, 100_000, 10_000_000, 4294967295] {
+                let g = top_level_grammar(GKind::Json, &format!("{{\"type\":\"array\",\"items\":{{\"type\":\"boolean\"}},\"maxItems\":{n}}}"))?;
+                let t0 = std::time::Instant::now();
+                let r = fac.create_parser(g);
+                println!("maxItems={n}: {:?} in {:?}", r.map(|_| "ok").map_err(|e| short1(&e.to_string())), t0.elapsed());
+            }
+        }
         _ => bail!("unknown probe"),
     }
     Ok(())
